@@ -103,6 +103,10 @@ pub struct Batch {
     /// the batch is spread over this many sender frames (1..4) before the receiver runs a frame
     #[serde(default)]
     pub frames: u8,
+    /// (server -> clients only, >= 2 clients) first send one client a message too large for the 16-bit frame header: that
+    /// client is dropped by the backend; everybody else must still get every ordinary message exactly once and in order
+    #[serde(default)]
+    pub poison: Option<u8>,
     /// (channel 0..3, payload size)
     pub msgs: Vec<(u8, u16)>,
 }
@@ -146,7 +150,36 @@ pub fn run(c: &Case) -> Outcome {
     }
     let mut seq = 0u32;
     let mut max_in_frame = 0usize;
+    let mut alive = vec![true; n];
+    let mut ids: Vec<Entity> = Vec::new();
+    {
+        // connection order = client order (each client connected before the next one was created? no: all connect in the
+        // first frames) - identify the server-side entity of every client through its network id (the local port)
+        let mut q = server.world_mut().query::<(Entity, &bevy_replicon::shared::backend::connected_client::NetworkId)>();
+        let pairs: Vec<(Entity, u64)> = q.iter(server.world()).map(|(e, id)| (e, id.get())).collect();
+        for c in &clients {
+            let port = c.world().resource::<ExampleClient>().local_addr().map(|a| a.port() as u64).unwrap_or(0);
+            ids.push(pairs.iter().find(|p| p.1 == port).map(|p| p.0).unwrap_or(Entity::PLACEHOLDER));
+        }
+    }
     for b in &c.batches {
+        if b.down && !alive.iter().any(|a| *a) {
+            continue;
+        }
+        if !b.down && !alive[b.from as usize % n] {
+            continue;
+        }
+        let mut poisoned: Option<usize> = None;
+        if b.down && n >= 2 {
+            if let Some(k) = b.poison {
+                let k = k as usize % n;
+                if alive[k] && alive.iter().filter(|a| **a).count() >= 2 && ids[k] != Entity::PLACEHOLDER {
+                    server.world_mut().send_event(ToClients { mode: SendMode::Direct(ids[k]), event: SA(0, vec![7u8; 70_000]) });
+                    poisoned = Some(k);
+                    alive[k] = false;
+                }
+            }
+        }
         let from = b.from as usize % n;
         if b.down {
             for c in &mut clients {
@@ -211,7 +244,14 @@ pub fn run(c: &Case) -> Outcome {
         }
         let nrx = if down { n } else { 1 };
         let mut gots: Vec<Vec<(u8, u32, Vec<u8>, u32)>> = Vec::new();
+        let _ = poisoned;
         for r in 0..nrx {
+            if down && !alive[r] {
+                // dropped by the backend (now or earlier): nothing is promised to it any more
+                clients[r].update();
+                gots.push(Vec::new());
+                continue;
+            }
             let rx: &mut App = if down { &mut clients[r] } else { &mut server };
             let got_len = |w: &World| if down { w.resource::<Got>().0.len() } else { w.resource::<GotUp>().0.len() };
             let t1 = Instant::now();
@@ -230,6 +270,9 @@ pub fn run(c: &Case) -> Outcome {
             gots.push(if down { rx.world().resource::<Got>().0.clone() } else { rx.world().resource::<GotUp>().0.clone() });
         }
         for (r, got) in gots.iter().enumerate() {
+            if down && !alive[r] {
+                continue;
+            }
             let mut per_frame: std::collections::BTreeMap<u32, usize> = Default::default();
             for g in got {
                 *per_frame.entry(g.3).or_default() += 1;
@@ -272,13 +315,16 @@ pub fn run(c: &Case) -> Outcome {
     if n >= 2 {
         out.classes.push("several_clients");
     }
+    if alive.iter().any(|a| !*a) {
+        out.classes.push("one_client_dropped_by_an_oversize_message");
+    }
     out
 }
 
 fn case_strategy() -> impl Strategy<Value = Case> {
     let size = prop_oneof![3 => 0u16..40, 2 => 0u16..=1200, 1 => prop_oneof![Just(0u16), Just(1), Just(255), Just(256), Just(1199), Just(1200)]];
-    let batch = (any::<bool>(), 0u8..3, proptest::collection::vec((0u8..3, size), 1..48), prop_oneof![2 => Just(1u8), 1 => 2u8..=4])
-        .prop_map(|(down, from, msgs, frames)| Batch { down, from, msgs, frames });
+    let batch = (any::<bool>(), 0u8..3, proptest::collection::vec((0u8..3, size), 1..48), prop_oneof![2 => Just(1u8), 1 => 2u8..=4], proptest::option::weighted(0.12, 0u8..3))
+        .prop_map(|(down, from, msgs, frames, poison)| Batch { down, from, msgs, frames, poison });
     (1u8..=3, proptest::collection::vec(batch, 1..4)).prop_map(|(clients, batches)| Case { clients, batches })
 }
 
